@@ -24,21 +24,23 @@ Fixpoint parse_log (n : nat) (l : list Z) : list entry * list Z :=
   | _, _ => ([], l)
   end.
 
+(* op: kind, seq, vis_0 .. vis_n (n = nseq: the last one is the server's seq horizon), then
+   container id, container seq number, ptsChanged flag, #items, items *)
 Fixpoint parse_ops (n : nat) (ns : Z) (l : list Z) : list mop :=
   match n, l with
   | S k, kind :: s :: t =>
-    let '(visl, t1) := take ns t in
+    let '(visl, t1) := take (ns + 1) t in
     match t1 with
-    | ni :: t2 =>
+    | cid :: sq :: p :: ni :: t2 =>
       let '(items, t3) := take ni t2 in
       let vis := nthz visl in
-      (if kind =? 0 then MPush vis items
+      (if kind =? 0 then MPushC vis cid sq items (negb (p =? 0))
        else if kind =? 1 then MTooLong vis
        else if kind =? 2 then MChanTooLong vis s
        else if kind =? 3 then MTimerCommon vis
        else if kind =? 4 then MTimerChan vis s
        else MStartup vis) :: parse_ops k ns t3
-    | [] => []
+    | _ => []
     end
   | _, _ => []
   end.
@@ -59,13 +61,14 @@ Definition observe (c : config) (m : mgr) : list Z :=
 Definition run_case (inp : list Z) : option (config * mgr) :=
   match inp with
   | n :: t =>
-    let '(bases, t1) := take n t in
+    let '(bases, t0) := take n t in
+    let '(trk, t1) := take n t0 in
     match t1 with
     | sl :: tl :: csl :: ctl :: nlog :: t2 =>
       let '(log, t3) := parse_log (Z.to_nat nlog) t2 in
       match t3 with
       | nops :: t4 =>
-        let c := {| nseq := n; base := nthz bases; slice_lim := sl; tl_thr := tl; cslice_lim := csl; ctl_thr := ctl |} in
+        let c := {| nseq := n; base := nthz bases; tracked0 := fun s => negb (nthz trk s =? 0); slice_lim := sl; tl_thr := tl; cslice_lim := csl; ctl_thr := ctl |} in
         Some (c, mrun c log (parse_ops (Z.to_nat nops) n t4))
       | [] => None
       end
